@@ -548,7 +548,7 @@ fn no_panic_verify(pk: &[u8], sig: &[u8], msg: &[u8]) -> Result<bool, String> {
 }
 
 pub fn signer() -> impl Strategy<Value = Signer> {
-    (prop_oneof![3 => idgen::server_name().boxed(), 1 => "[a-zA-Z0-9@:._ é-]{1,12}".boxed()], prop_oneof![3 => "[A-Za-z0-9_]{1,8}".boxed(), 1 => "[A-Za-z0-9_.:+ /=é-]{1,8}".boxed()], any::<[u8; 32]>(), 0u8..3).prop_map(|(entity, version, seed, der_form)| Signer { entity, version, seed, der_form })
+    (prop_oneof![3 => idgen::server_name().boxed(), 1 => "[a-zA-Z0-9@:._ é-]{1,12}".boxed()], prop_oneof![3 => "[A-Za-z0-9_]{1,8}".boxed(), 1 => "[A-Za-z0-9_.:+ /=é-]{1,8}".boxed()], crate::keys::seed32(), 0u8..3).prop_map(|(entity, version, seed, der_form)| Signer { entity, version, seed, der_form })
 }
 
 fn object() -> impl Strategy<Value = BTreeMap<String, V>> {
@@ -634,7 +634,7 @@ pub fn run(ck: &mut Check) {
     );
     ck.floor("malformed_signatures_atomicity", "sign_error", 500);
     let n = ck.n(80_000, 600_000);
-    ck.prop("ring_differential_triples", n, || (any::<[u8; 32]>(), prop::collection::vec(any::<u8>(), 0..200), 0u8..7, any::<u16>()).prop_map(|(seed, msg, mutate, bit)| TripleCase { seed, msg, mutate, bit }), triple_oracle);
+    ck.prop("ring_differential_triples", n, || (crate::keys::seed32(), prop::collection::vec(any::<u8>(), 0..200), 0u8..7, any::<u16>()).prop_map(|(seed, msg, mutate, bit)| TripleCase { seed, msg, mutate, bit }), triple_oracle);
     ck.floor("ring_differential_triples", "triple_valid", 500);
     ck.floor("ring_differential_triples", "triple_invalid", 2000);
 }
